@@ -167,6 +167,13 @@ pub fn check(args: &Args) -> i32 {
 pub fn replay(v: &Value, path: &str, quiet: bool) -> i32 {
     let w = world_from_json(&v["world"]);
     let e = exec_from_json(&v["exec"]);
+    if std::env::var("GE_C20_REPEAT").is_ok() {
+        crate::entropy::DEBUG.store(true, std::sync::atomic::Ordering::Relaxed);
+        // debugging aid: is one (world, execution) pair judged the same way every time?
+        for i in 0..6 {
+            println!("repeat {}: {:?}", i, check_pair(&w, &e).map(|x| x.class));
+        }
+    }
     match check_pair(&w, &e) {
         Some(x) => {
             if !quiet {
